@@ -461,6 +461,8 @@ class Interp:
             return BoundMethod(obj, clo)
         if kind == "assign":
             return self.eval_in_module(owner_cls.info.module, ent[1], cls=owner_cls.name)
+        if kind == "nested":
+            return self.classv(ent[1])
         if kind == "dyn":
             v = ent[1]
             if isinstance(v, Closure) and obj is not None and not isinstance(obj, ClassV):
